@@ -20,8 +20,19 @@ func main() {
 		lib.Fatal(err)
 	}
 	defer drv.Close()
-	runTime(f, res, drv)
+	drvTime, err := lib.StartDriver(f.Driver)
+	if err != nil {
+		lib.Fatal(err)
+	}
+	defer drvTime.Close()
+	execTime := prepTime(f, res)
+	timeDone := make(chan struct{})
+	go func() {
+		defer close(timeDone)
+		execTime(drvTime)
+	}()
 	runSeg(f, res, drv)
+	<-timeDone
 	if err := res.Write(f.Out); err != nil {
 		lib.Fatal(err)
 	}
